@@ -54,6 +54,8 @@ Record c08_case := mkCase {
   c_calls : list vcall;             (* calls received by visit, in order *)
   c_in_after : obj;                 (* the input graph re-read after remap *)
   c_query : vpred;
+  c_qraise : option vpred;          (* where this holds, the query raises instead of answering *)
+  c_qreraise : bool;                (* research(..., reraise=) *)
   c_research : res (list rentry);   (* research(root, query), get_path(root, path) for every entry *)
   c_in_final : obj;
   c_probes : list (path * res oref * bool);  (* get_path(root, p) for arbitrary p; whether default= was returned *)
@@ -90,7 +92,10 @@ Definition rentry_eqb (a b : rentry) : bool :=
   path_eqb p p' && oref_eqb r r' && res_eqb oref_eqb g g'.
 
 Definition model_research (c : c08_case) : res (list rentry) :=
-  match research (eval_pred (c_query c)) (c_in c) with
+  match research_x (fun p k s => match c_qraise c with
+                                 | Some qr => if eval_pred qr p k s then None else Some (eval_pred (c_query c) p k s)
+                                 | None => Some (eval_pred (c_query c) p k s)
+                                 end) (c_qreraise c) (c_in c) with
   | Ok l => Ok (map (fun pr => (fst pr, snd pr, get_path (c_in c) (fst pr))) l)
   | Raise e => Raise e
   end.
@@ -162,7 +167,9 @@ Definition ok_paths (c : c08_case) : bool :=
   match c_research c with
   | Ok l => forallb (fun e => let '(p, r, g) := e in retrievable (p, r, got g)) l
   | Raise e =>      (* research of something that is not a container: TypeError, nothing reported *)
-      exn_eqb e TypeError && match c_in c with ONode _ _ _ => false | _ => true end
+      (exn_eqb e TypeError && match c_in c with ONode _ _ _ => false | _ => true end)
+      || (exn_eqb e QueryError && c_qreraise c
+          && match c_qraise c with Some _ => true | None => false end)   (* the query's own exception, re-raised *)
   end.
 
 (* ---- known: guards of the two open findings (imm_backref, crosses_set: Spec) ---- *)
